@@ -42,6 +42,8 @@ void HttpServer::addMimeType(const String& ext, const String& type)
 	_mimetypes[ext] = type;
 }
 
+void closeBehind(Socket& socket); // Http.cpp
+
 void HttpServer::serve(Socket client)
 {
 	double t1 = now();
@@ -148,6 +150,10 @@ void HttpServer::serve(Socket client)
 		if ((request.protocol() == "HTTP/1.0" && hconn != "keep-alive") || hconn == "close")
 			break;
 	}
+	// The connection ends here (asked for by the request, the 10 s limit, a request that is none). Request bytes may still
+	// be unread (the CR LF some clients put behind a POST body, a pipelined request): closing over them makes the system
+	// reset the connection and drop the unsent tail of the last response, so it is ended the gentle way.
+	closeBehind(client);
 }
 
 void HttpServer::setRoot(const String& root)
